@@ -1,1 +1,302 @@
-// placeholder
+//! Quake 1 / 2 / 3 status reference server (node-gamedig quake{1,2,3}.js).
+
+use super::*;
+use crate::vnet::{Chooser, ConnInfo, Responder};
+use gamedig::protocols::quake;
+use std::collections::HashMap;
+
+#[derive(Clone, Copy, Debug, PartialEq, Eq)]
+pub enum Ver {
+    One,
+    Two,
+    Three,
+}
+
+impl Ver {
+    pub fn request(self) -> Vec<u8> {
+        let mut b = vec![0xFF, 0xFF, 0xFF, 0xFF];
+        b.extend_from_slice(match self {
+            Ver::One | Ver::Two => b"status",
+            Ver::Three => b"getstatus",
+        });
+        b.push(0);
+        b
+    }
+    pub fn header(self) -> &'static [u8] {
+        match self {
+            Ver::One => b"n",
+            Ver::Two => b"print\n",
+            Ver::Three => b"statusResponse\n",
+        }
+    }
+}
+
+#[derive(Clone, Debug, PartialEq)]
+pub struct QPlayer {
+    // Q1 only
+    pub id: u8,
+    pub time: u16,
+    pub skin: String,
+    pub c1: u8,
+    pub c2: u8,
+    // all
+    pub score: i32,
+    pub ping: u16,
+    pub name: String,
+    pub quoted: bool,
+    /// Q2/Q3 optional address field
+    pub address: Option<String>,
+}
+
+#[derive(Clone, Debug, PartialEq)]
+pub struct QState {
+    pub ver: Ver,
+    /// (key, value) in order; includes the aliased keys chosen by the generator
+    pub vars: Vec<(String, String)>,
+    pub players: Vec<QPlayer>,
+    /// the reply ends with a NUL after the last newline (as the in-code comment describes)
+    pub trailing_nul: bool,
+}
+
+impl QState {
+    pub fn datagram(&self) -> Vec<u8> {
+        let mut b = vec![0xFF, 0xFF, 0xFF, 0xFF];
+        b.extend_from_slice(self.ver.header());
+        for (k, v) in &self.vars {
+            b.push(b'\\');
+            b.extend_from_slice(k.as_bytes());
+            b.push(b'\\');
+            b.extend_from_slice(v.as_bytes());
+        }
+        b.push(b'\n');
+        for p in &self.players {
+            let name = if p.quoted { format!("\"{}\"", p.name) } else { p.name.clone() };
+            let line = match self.ver {
+                Ver::One => {
+                    format!(
+                        "{} {} {} {} {} \"{}\" {} {}",
+                        p.id, p.score, p.time, p.ping, name, p.skin, p.c1, p.c2
+                    )
+                }
+                _ => {
+                    match &p.address {
+                        Some(a) => format!("{} {} {} \"{}\"", p.score, p.ping, name, a),
+                        None => format!("{} {} {}", p.score, p.ping, name),
+                    }
+                }
+            };
+            b.extend_from_slice(line.as_bytes());
+            b.push(b'\n');
+        }
+        if self.trailing_nul {
+            b.push(0);
+        }
+        b
+    }
+
+    fn take(vars: &mut HashMap<String, String>, a: &str, b: &str) -> Option<String> {
+        vars.remove(a).or_else(|| vars.remove(b))
+    }
+
+    /// (name, map, max, version, unused)
+    pub fn expected_common(&self) -> (String, String, u8, Option<String>, HashMap<String, String>) {
+        let mut vars: HashMap<String, String> = self.vars.iter().cloned().collect();
+        let name = Self::take(&mut vars, "hostname", "sv_hostname").unwrap();
+        let map = Self::take(&mut vars, "mapname", "map").unwrap();
+        let max = Self::take(&mut vars, "maxclients", "sv_maxclients")
+            .unwrap()
+            .parse()
+            .unwrap();
+        let version = Self::take(&mut vars, "version", "*version");
+        (name, map, max, version, vars)
+    }
+
+    pub fn expected_one(&self) -> quake::Response<quake::one::Player> {
+        let (name, map, max, version, unused) = self.expected_common();
+        quake::Response {
+            name,
+            map,
+            players: self
+                .players
+                .iter()
+                .map(|p| {
+                    quake::one::Player {
+                        id: p.id,
+                        score: p.score as u16,
+                        time: p.time,
+                        ping: p.ping,
+                        name: p.name.clone(),
+                        skin: p.skin.clone(),
+                        color_primary: p.c1,
+                        color_secondary: p.c2,
+                    }
+                })
+                .collect(),
+            players_online: self.players.len() as u8,
+            players_maximum: max,
+            game_version: version,
+            unused_entries: unused,
+        }
+    }
+
+    pub fn expected_two(&self) -> quake::Response<quake::two::Player> {
+        let (name, map, max, version, unused) = self.expected_common();
+        quake::Response {
+            name,
+            map,
+            players: self
+                .players
+                .iter()
+                .map(|p| {
+                    quake::two::Player {
+                        score: p.score,
+                        ping: p.ping,
+                        name: p.name.clone(),
+                        address: p.address.clone(),
+                    }
+                })
+                .collect(),
+            players_online: self.players.len() as u8,
+            players_maximum: max,
+            game_version: version,
+            unused_entries: unused,
+        }
+    }
+}
+
+/// strings valid inside a quake info string value
+fn qstr(c: &mut Chooser, default: &str) -> String {
+    pick(c, &[
+        default.to_string(),
+        String::new(),
+        "a".to_string(),
+        "Zürich 東京".to_string(),
+        "with space".to_string(),
+        long_string(120),
+    ])
+}
+
+pub fn gen_quake(c: &mut Chooser, ver: Ver, player_counts: &[usize], names_with_spaces: bool) -> QState {
+    let mut vars: Vec<(String, String)> = Vec::new();
+    // aliased keys: which spelling(s) are present
+    let host = qstr(c, "A Quake server");
+    match pick(c, &[0u8, 1, 2]) {
+        0 => vars.push(("hostname".into(), host)),
+        1 => vars.push(("sv_hostname".into(), host)),
+        _ => {
+            vars.push(("hostname".into(), host));
+            vars.push(("sv_hostname".into(), "other host".into()));
+        }
+    }
+    let map = qstr(c, "q3dm17");
+    match pick(c, &[0u8, 1, 2]) {
+        0 => vars.push(("mapname".into(), map)),
+        1 => vars.push(("map".into(), map)),
+        _ => {
+            vars.push(("mapname".into(), map));
+            vars.push(("map".into(), "othermap".into()));
+        }
+    }
+    let max = pick(c, &u8_alts(16)).to_string();
+    match pick(c, &[0u8, 1, 2]) {
+        0 => vars.push(("maxclients".into(), max)),
+        1 => vars.push(("sv_maxclients".into(), max)),
+        _ => {
+            vars.push(("maxclients".into(), max));
+            vars.push(("sv_maxclients".into(), "3".into()));
+        }
+    }
+    let version = qstr(c, "Q3 1.32c linux-i386");
+    match pick(c, &[0u8, 1, 2, 3]) {
+        0 => vars.push(("version".into(), version)),
+        1 => vars.push(("*version".into(), version)),
+        2 => {
+            vars.push(("version".into(), version));
+            vars.push(("*version".into(), "other".into()));
+        }
+        _ => {}
+    }
+    let n_extra = pick(c, &[2usize, 0, 5]);
+    for i in 0 .. n_extra {
+        vars.push((
+            pick(c, &[format!("g_var{i}"), format!("sv key {i}"), format!("*gamedir{i}")]),
+            qstr(c, "1"),
+        ));
+    }
+    // variable order is not significant: optionally rotate
+    let rot = pick(c, &[0usize, 1, 3]);
+    let l = vars.len();
+    vars.rotate_left(rot % l.max(1));
+
+    let n = pick(c, player_counts);
+    let players = (0 .. n)
+        .map(|i| {
+            if i < 2 {
+                let name = if names_with_spaces {
+                    pick(c, &["Al ice".to_string(), "a b c".to_string()])
+                } else {
+                    pick(c, &[
+                        if i == 0 { "Alice".to_string() } else { "Bob".to_string() },
+                        "a".to_string(),
+                        "Zürich".to_string(),
+                        "^1Red^7Name".to_string(),
+                        String::new(),
+                    ])
+                };
+                QPlayer {
+                    id: pick(c, &u8_alts(i as u8)),
+                    time: pick(c, &u16_alts(120)),
+                    skin: pick(c, &["base".to_string(), String::new(), "skin_x".to_string()]),
+                    c1: pick(c, &u8_alts(4)),
+                    c2: pick(c, &u8_alts(13)),
+                    score: if ver == Ver::One {
+                        pick(c, &[9i32, 0, 65535])
+                    } else {
+                        pick(c, &i32_alts(9 + i as i32))
+                    },
+                    ping: pick(c, &u16_alts(48)),
+                    name,
+                    quoted: names_with_spaces || pick(c, &[true, false]),
+                    address: if ver == Ver::One {
+                        None
+                    } else {
+                        pick(c, &[None, Some("10.0.0.1:27960".to_string()), Some(String::new())])
+                    },
+                }
+            } else {
+                QPlayer {
+                    id: i as u8,
+                    time: i as u16,
+                    skin: "base".into(),
+                    c1: 1,
+                    c2: 2,
+                    score: i as i32,
+                    ping: 10 + i as u16,
+                    name: format!("p{i}"),
+                    quoted: true,
+                    address: None,
+                }
+            }
+        })
+        .collect();
+    QState {
+        ver,
+        vars,
+        players,
+        trailing_nul: pick(c, &[false, true]),
+    }
+}
+
+pub struct QuakeServer {
+    pub state: QState,
+}
+
+impl Responder for QuakeServer {
+    fn on_datagram(&mut self, _c: &ConnInfo, data: &[u8]) -> Vec<Vec<u8>> {
+        if data == self.state.ver.request().as_slice() {
+            vec![self.state.datagram()]
+        } else {
+            vec![]
+        }
+    }
+}
